@@ -188,9 +188,19 @@ def run_T(desc, ctx):
         fmt = rng.choice(["text", "text", "nc"])
         pool = rng.choice([[0, 1, 2, 3, 4, 5, 6], [0, 3, 6, 12, 18, 24, 48], [0, 1, 3, 6, 12, 13, 36, 72, 240], [0, 6, 12, 18, 24, 30, 36]])
         hours = rng.choice([None, [0], [0, 12]])
-        ds = gen.make_dataset(rng, n_inputs=rng.choice([1, 2]), fmt=fmt, ens=ens, members=rng.randint(1, 4), miss=rng.choice([0.0, 0.1, 0.2]),
-                              sparse=0.0, leadtime_pool=pool, max_l=5, max_t=4, vrange=(1, 12), hours=hours,
-                              some_without_obs=rng.random() < 0.2)
+        twin_grids = rng.random() < 0.25
+        ds = gen.make_dataset(rng, n_inputs=2 if twin_grids else rng.choice([1, 2]), fmt=fmt, ens=ens, members=rng.randint(1, 4),
+                              miss=rng.choice([0.0, 0.1, 0.2]), sparse=0.0, leadtime_pool=pool, max_l=5, max_t=4, vrange=(1, 12), hours=hours,
+                              some_without_obs=rng.random() < 0.2, same_dims=twin_grids)
+        if twin_grids:
+            # two grids of the same length with the same first and last lead time but another value in between
+            i1 = ds["inputs"][1]
+            inner = i1["leadtimes"][1:-1]
+            free = [x for x in pool if x not in i1["leadtimes"] and x not in ds["inputs"][0]["leadtimes"]
+                    and i1["leadtimes"][0] < x < i1["leadtimes"][-1]]
+            if inner and free:
+                gen.rename_leadtime(i1, rng.choice(inner), rng.choice(free))
+                ctx.count("T_grids_same_ends_other_interior")
         tx = rng.choice(["leadtime", "leadtime", "time"])
         agg = rng.choice(TAGGS + ["sum", "sum", "mean", "mean", "max"])
         if tx == "leadtime":
